@@ -819,6 +819,19 @@ def blocks_get_acl_settings(ctx: Ctx, rep: Report, rid: str = "R16.24") -> None:
                     for t in y.targets:
                         if isinstance(t, ast.Attribute) and src(t.value) == lp.target.id and isinstance(y.value, ast.Attribute) and src(y.value.value) == "self":
                             stamped.add(t.attr.lstrip("_"))
+    if st is not None and not stamped:
+        # the per-item conversion lives in a helper (`[self._init_item(x) for x in items]`, a drained generator, map())
+        from .common import per_item_unit
+
+        unit = per_item_unit(ctx, st)
+        if unit is not None:
+            _uf, uvar, upaths, _ua, _uh = unit
+            for path in upaths:
+                for nd, _lab in path:
+                    if nd.kind == "stmt" and isinstance(nd.ast, ast.Assign):
+                        for t in nd.ast.targets:
+                            if isinstance(t, ast.Attribute) and src(t.value) == uvar and isinstance(nd.ast.value, ast.Attribute) and src(nd.ast.value.value) == "self":
+                                stamped.add(t.attr.lstrip("_"))
     rep.instance()
     if not ctors or not stamped:
         rep.note(f"{rid} block construction or the stamping of adopted entries not recognised - not judged")
